@@ -25,19 +25,23 @@ def tx_bounds(ctx, rng, version):
     for retries in (1, 2, 3, 4):
         for answered in range(0, retries + 2):          # 0 = never; k = the k-th transmission is the first answered
             RT = sessim.measure_params()[0]
-            for delay in (100, RT - 63, RT + 137):
+            for delay, lost in [(d, l) for d in (100, RT - 63, RT + 137) for l in (False, True)]:
                 if answered == 0 and delay != 100:
                     continue
                 token, key = rb(rng, 64), rb(rng, 32)
                 data_mode = "silent" if answered == 0 else f"silent{answered - 1}"
                 # the answered transmission replies after `delay`; encode through director modes
-                ops = ([("auth", token, key, "ok", "ok")] if version == 3 else []) + [("sendn", frame, retries, "ok", data_mode)]
+                # `lost`: the previous exchange ended with the peer closing the connection, so THIS exchange has to connect
+                # (and, on V3, handshake and sleep) by itself before its first transmission - its retry budget is the same
+                pre = [("send", frame, "ok", "close")] if lost else []
+                ops = ([("auth", token, key, "ok", "ok")] if version == 3 else []) + pre + [("sendn", frame, retries, "ok", data_mode)]
                 res, inp = compare_n(ctx, "tx_bounds", version, ops, token, key, reply_delay=delay)
                 dev = res["dev"]
                 kind = "data" if version == 3 else "v2"
-                tx = [e for e in dev.log if e["kind"] == kind]
+                t0 = res["times"][-2] if len(res["times"]) >= 2 else 0
+                tx = [e for e in dev.log if e["kind"] == kind and sessim.ms(e["t"]) >= t0]
                 out = res["outcomes"][-1]
-                inp.update(retries=retries, answered=answered, delay=delay)
+                inp.update(retries=retries, answered=answered, delay=delay, session_lost_before=lost)
                 n = len(tx)
                 if not (1 <= n <= retries):
                     ctx.violate("tx_bounds", inp, {"transmissions": n}, f"1..{retries}", "number of transmissions outside 1..retries")
@@ -60,20 +64,25 @@ def tx_bounds(ctx, rng, version):
                 ts = [sessim.ms(e["t"]) for e in tx]
                 if any(b - a != RT for a, b in zip(ts, ts[1:])):
                     ctx.violate("tx_bounds", inp, ts, f"{RT} ms apart (the measured read timeout)", "retransmissions are not evenly spaced by the read timeout")
-                ctx.case("tx_bounds", key=(version, retries, answered, delay), sample={**{k: inp[k] for k in ("retries", "answered", "delay")}, "tx": n, "out": out[:14]})
+                ctx.case("tx_bounds", key=(version, retries, answered, delay, lost), sample={**{k: inp[k] for k in ("retries", "answered", "delay")}, "tx": n, "out": out[:14]})
 
 
 def compare_n(ctx, stream, version, ops, token, key, reply_delay=100, connects=None):
     """like sessim.compare but with `sendn` ops and a configurable reply delay"""
     orig = sessim.Director.__call__
+    orig_set = sessim.Director.set
+
+    def set_(self, hs_mode, data_mode):
+        orig_set(self, hs_mode, data_mode)
+        self.dcount = 0                      # data requests of THIS operation (its own handshake requests do not count)
 
     def call(self, d, tr, req):
         conn = d.conns[tr.cid]
         mode = self.hs_mode if req["kind"] == "hs" else self.data_mode
         if req["kind"] != "hs" and mode.startswith("silent") and mode != "silent":
-            self.count += 1
+            self.dcount = getattr(self, "dcount", 0) + 1
             n = int(mode[6:])
-            if self.count <= n:
+            if self.dcount <= n:
                 return
             reply = d._proper_reply(conn, req)
             if reply:
@@ -81,6 +90,7 @@ def compare_n(ctx, stream, version, ops, token, key, reply_delay=100, connects=N
             return
         return orig(self, d, tr, req)
     sessim.Director.__call__ = call
+    sessim.Director.set = set_
     try:
         real_ops = []
         for op in ops:
@@ -88,6 +98,7 @@ def compare_n(ctx, stream, version, ops, token, key, reply_delay=100, connects=N
         res, inp = _compare(ctx, stream, version, real_ops, connects or ["o"] * 10, token, key)
     finally:
         sessim.Director.__call__ = orig
+        sessim.Director.set = orig_set
     return res, inp
 
 
